@@ -5,9 +5,12 @@ package scen
 import (
 	"errors"
 	"fmt"
+	"reflect"
+	"sort"
 	"strings"
 
 	z "github.com/Oudwins/zog"
+	"github.com/Oudwins/zog/conf"
 	"zogverif/mc"
 	"zogverif/zh"
 )
@@ -20,6 +23,7 @@ type c12CD struct {
 func c12ExtraItems() []Item {
 	return []Item{
 		{Name: "custom+preprocess", MaxDevs: -1, Run: c12ExtraScenario},
+		{Name: "schemas-over-named-types", MaxDevs: -1, Run: c12NamedTypesScenario},
 	}
 }
 
@@ -223,6 +227,121 @@ func c12ExtraScenario(x *mc.X) *mc.Outcome {
 	}
 	if !destPtrOK {
 		fail("C12:extra:ptr", "custom function did not receive the address of its destination node", "address of destination", "other pointer")
+	}
+	return out
+}
+
+// ---------------------------------------------------------------------------
+// Schemas over named types (the documented custom-schema feature): every callback receives the node's own value,
+// i.e. a value of the NAMED type — the value itself for TestFuncs, a pointer to the destination for PostTransforms.
+
+type c12Env string
+type c12Level int
+
+type c12Named struct {
+	Env   c12Env
+	Level c12Level
+	Envs  []c12Env
+}
+
+func c12EnvSchema() *z.StringSchema[c12Env] {
+	s := &z.StringSchema[c12Env]{}
+	z.WithCoercer(func(x any) (any, error) {
+		v, e := conf.DefaultCoercers.String(x)
+		if e != nil {
+			return nil, e
+		}
+		return c12Env(v.(string)), nil
+	})(s)
+	return s
+}
+
+func c12LevelSchema() *z.NumberSchema[c12Level] {
+	s := &z.NumberSchema[c12Level]{}
+	z.WithCoercer(func(x any) (any, error) {
+		v, e := conf.DefaultCoercers.Int(x)
+		if e != nil {
+			return nil, e
+		}
+		return c12Level(v.(int)), nil
+	})(s)
+	return s
+}
+
+func c12NamedTypesScenario(x *mc.X) *mc.Outcome {
+	zh.Reset()
+	zh.Install(x, zh.PoolLIFO, zh.OrderFree)
+	mode := x.Choose(2, "mode")
+	place := x.Choose(3, "placement") // 0 top level, 1 struct fields, 2 slice elements
+	how := x.Choose(3, "attach")      // 0 TestFunc, 1 Test(reusable z.TestFunc), 2 PostTransform
+	var log []string
+	rec := func(who string, v any) {
+		log = append(log, fmt.Sprintf("%s:%T(%v)", who, v, reflect.Indirect(reflect.ValueOf(v)).Interface()))
+	}
+	env := c12EnvSchema()
+	lvl := c12LevelSchema()
+	switch how {
+	case 0:
+		env.TestFunc(func(v any, c z.Ctx) bool { rec("env", v); return true })
+		lvl.TestFunc(func(v any, c z.Ctx) bool { rec("lvl", v); return true })
+	case 1:
+		env.Test(z.TestFunc("envtest", func(v any, c z.Ctx) bool { rec("env", v); return true }))
+		lvl.Test(z.TestFunc("lvltest", func(v any, c z.Ctx) bool { rec("lvl", v); return true }))
+	case 2:
+		env.PostTransform(func(p any, c z.Ctx) error { rec("env", p); return nil })
+		lvl.PostTransform(func(p any, c z.Ctx) error { rec("lvl", p); return nil })
+	}
+	var want []string
+	val, ptr := "scen.c12Env(prod)", "*scen.c12Env(prod)"
+	lval, lptr := "scen.c12Level(3)", "*scen.c12Level(3)"
+	if how == 2 {
+		val, lval = ptr, lptr
+	}
+	switch place {
+	case 0:
+		var d c12Env
+		if mode == 0 {
+			env.Parse("prod", &d)
+		} else {
+			d = "prod"
+			env.Validate(&d)
+		}
+		var l c12Level
+		if mode == 0 {
+			lvl.Parse(3, &l)
+		} else {
+			l = 3
+			lvl.Validate(&l)
+		}
+		want = []string{"env:" + val, "lvl:" + lval}
+	case 1:
+		s := z.Struct(z.Schema{"env": env, "level": lvl})
+		var d c12Named
+		if mode == 0 {
+			s.Parse(map[string]any{"env": "prod", "level": 3}, &d)
+		} else {
+			d = c12Named{Env: "prod", Level: 3}
+			s.Validate(&d)
+		}
+		want = []string{"env:" + val, "lvl:" + lval}
+		sort.Strings(log) // field visit order is free
+	case 2:
+		s := z.Slice(env)
+		var d []c12Env
+		if mode == 0 {
+			s.Parse([]any{"prod", "prod"}, &d)
+		} else {
+			d = []c12Env{"prod", "prod"}
+			s.Validate(&d)
+		}
+		want = []string{"env:" + val, "env:" + val}
+	}
+	zh.Reset()
+	out := &mc.Outcome{Traces: 1, Nontrivial: true, Sig: fmt.Sprintf("named|%d|%d|%d", mode, place, how)}
+	out.Sample = map[string]any{"mode": mode, "placement": place, "attach": how, "callbacks": log}
+	if !eqStrings(want, log) {
+		x.Note("mode %d (0 Parse, 1 Validate), placement %d (0 top, 1 struct fields, 2 slice elements), callbacks attached with %d (0 TestFunc, 1 Test(z.TestFunc), 2 PostTransform)", mode, place, how)
+		out.Viol = append(out.Viol, &mc.Violation{Key: fmt.Sprintf("C12:named-type-argument:%d", how), What: "a callback of a schema over a named type did not receive the node's own (named-type) value", Expected: fmt.Sprint(want), Observed: fmt.Sprint(log)})
 	}
 	return out
 }
